@@ -108,6 +108,59 @@ def hamming(k, x1, x2):
     return ((1 + a) / (a + dist)) ** b
 
 
+def arc(k, x1, x2):
+    """arc kernel: cylindrical embedding g_i(x) = w_i [sin(pi rho_i x_i / L_i), cos(pi rho_i x_i / L_i)] (all sines first,
+    then all cosines - a permutation of coordinates, irrelevant to any stationary/dot-product base kernel), then the
+    base kernel on the embedded points; the default delta function is 1"""
+    L = k.lengthscale.detach()
+    rho, w = k.angle.detach(), k.radius.detach()
+
+    def emb(x):
+        t = math.pi * rho * x / L
+        return torch.cat([w * torch.sin(t), w * torch.cos(t)], dim=-1)
+
+    return dense(k.base_kernel, emb(x1), emb(x2))
+
+
+def cylindrical(k, x1, x2):
+    """BOCK (Oh et al. 2018): K(x,x') = K_r(kuma(|x|), kuma(|x'|)) * sum_p w_p (a.a')^p, a = x/|x|,
+    kuma(r) = 1 - (1 - r^alpha)^beta (the library adds eps=1e-6 inside the bracket)"""
+    r1, r2 = x1.norm(dim=-1, keepdim=True), x2.norm(dim=-1, keepdim=True)
+    a1, a2 = x1 / r1, x2 / r2
+    gram = a1 @ a2.transpose(-1, -2)
+    w = k.angular_weights.detach()
+    ang = 0
+    for p in range(k.num_angular_weights):
+        ang = ang + w[..., p].reshape(*w.shape[:-1], 1, 1) * gram**p
+    al = k.alpha.detach().reshape(*k.batch_shape, 1, 1)
+    be = k.beta.detach().reshape(*k.batch_shape, 1, 1)
+
+    def kuma(r):
+        return 1 - (1 - r**al + k.eps) ** be
+
+    return dense(k.radial_base_kernel, kuma(r1), kuma(r2)) * ang
+
+
+def spectral_delta(k, x1, x2):
+    """spectral density = equal-weight mixture of S point masses at +-z_s  <=>  k(tau) = (1/S) sum_s cos(2 pi z_s . tau / l)"""
+    Z = k.Z.detach()  # ... S d
+    tau = _diff(x1, x2) / _ls(k)  # ... n1 n2 d
+    ph = 2 * math.pi * (tau.unsqueeze(-2) * Z.unsqueeze(-3).unsqueeze(-3)).sum(-1)  # ... n1 n2 S
+    return torch.cos(ph).mean(-1)
+
+
+def gskl(k, x1, x2):
+    """exp(-(KL(p||q)+KL(q||p)) / lengthscale) for diagonal Gaussians given as [mean, log-variance] rows (shipped
+    convention for the lengthscale, see the recorded docstring finding); KLs from torch.distributions"""
+    from torch.distributions import Normal, kl_divergence
+
+    d = x1.shape[-1] // 2
+    p = Normal(x1[..., :d].unsqueeze(-2), (1e-8 + x1[..., d:].exp()).sqrt().unsqueeze(-2))
+    q = Normal(x2[..., :d].unsqueeze(-3), (1e-8 + x2[..., d:].exp()).sqrt().unsqueeze(-3))
+    skl = (kl_divergence(p, q) + kl_divergence(q, p)).sum(-1)
+    return torch.exp(-skl / k.lengthscale.detach())
+
+
 def scale(k, x1, x2):
     # ScaleKernel adopts its base kernel's active_dims and calls base.forward directly: columns are selected once
     o = k.outputscale.detach()
@@ -149,6 +202,10 @@ def dense(k, x1, x2, sub=True):
         K.PiecewisePolynomialKernel: pp,
         K.SpectralMixtureKernel: sm,
         K.HammingIMQKernel: hamming,
+        K.ArcKernel: arc,
+        K.CylindricalKernel: cylindrical,
+        K.SpectralDeltaKernel: spectral_delta,
+        K.GaussianSymmetrizedKLKernel: gskl,
     }
     for cls, fn in table.items():
         if type(k) is cls:
